@@ -26,6 +26,7 @@ unit({
 MR = 'src/Stream/MemoryReader.cpp'
 unit({
     'name': 'memr',
+    'includes': ['kr.h'],
     'typemap': {'MemoryReader': 'MemoryReader'},
     'structs': [('src/Stream/MemoryReader.h', 'MemoryReader')],
     'calls': {
@@ -45,5 +46,76 @@ unit({
         {'file': MR, 'qual': 'MemoryReader::SeekBackward', 'cname': 'MemoryReader_SeekBackward', 'cls': 'MemoryReader'},
         {'file': MR, 'qual': 'MemoryReader::Slice', 'nparams': 1, 'cname': 'MemoryReader_Slice1', 'cls': 'MemoryReader', 'autos': {'slice': 'MemoryReader'}},
         {'file': MR, 'qual': 'MemoryReader::Slice', 'nparams': 2, 'cname': 'MemoryReader_Slice2', 'cls': 'MemoryReader'},
+    ],
+})
+
+# --------------------------------------------------------------------------- U-MEMW
+MW = 'src/Stream/MemoryWriter.cpp'
+unit({
+    'name': 'memw',
+    'includes': ['kr.h'],
+    'typemap': {'MemoryWriter': 'MemoryWriter'},
+    'structs': [('src/Stream/MemoryWriter.h', 'MemoryWriter')],
+    'calls': {'Seek': T('MemoryWriter_Seek')},
+    'functions': [
+        {'file': MW, 'qual': 'MemoryWriter::MemoryWriter', 'cname': 'MemoryWriter_ctor', 'cls': 'MemoryWriter', 'ctor': True},
+        {'file': MW, 'qual': 'MemoryWriter::WriteImplementation', 'cname': 'MemoryWriter_WriteImplementation', 'cls': 'MemoryWriter'},
+        {'file': MW, 'qual': 'MemoryWriter::Length', 'cname': 'MemoryWriter_Length', 'cls': 'MemoryWriter'},
+        {'file': MW, 'qual': 'MemoryWriter::Position', 'cname': 'MemoryWriter_Position', 'cls': 'MemoryWriter'},
+        {'file': MW, 'qual': 'MemoryWriter::Seek', 'cname': 'MemoryWriter_Seek', 'cls': 'MemoryWriter'},
+        {'file': MW, 'qual': 'MemoryWriter::SeekForward', 'cname': 'MemoryWriter_SeekForward', 'cls': 'MemoryWriter'},
+        {'file': MW, 'qual': 'MemoryWriter::SeekBackward', 'cname': 'MemoryWriter_SeekBackward', 'cls': 'MemoryWriter'},
+    ],
+})
+
+# --------------------------------------------------------------------------- U-SLICE  (SliceReader<W>, W any K_W stream)
+SR = 'src/Stream/SliceReader.h'
+def _sl(name, **kw):
+    d = {'file': SR, 'qual': name, 'inclass': 'SliceReader', 'cls': 'SliceReader', 'cname': 'SliceReader_' + name}
+    d.update(kw); return d
+unit({
+    'name': 'slice',
+    'includes': ['kr.h'],
+    'typemap': {'WrappedStreamType': 'Ws', 'SliceReader<WrappedStreamType>': 'SliceReader', 'SliceReader': 'SliceReader'},
+    'structs': [(SR, 'SliceReader')],
+    'calls': {
+        'Initialize': T('SliceReader_Initialize'),
+        'Position': [(r'.*wrappedStream', N('Ws_Position')), (r'', N('SliceReader_Position'))],
+        'Length': [(r'.*wrappedStream', N('Ws_Length'))],
+        'ReadPartial': [(r'.*wrappedStream', N('Ws_ReadPartial'))],
+        'Read': [(r'.*wrappedStream', T('Ws_Read'))],
+        'Seek': [(r'.*wrappedStream', N('Ws_Seek'))],
+        'SeekForward': [(r'.*wrappedStream', T('Ws_SeekForward')), (r'', T('SliceReader_SeekForward'))],
+        'SeekBackward': [(r'.*wrappedStream', T('Ws_SeekBackward'))],
+        'Slice': {2: T('SliceReader_Slice2')},
+        'SliceReader': T('SliceReader_make', recv='none', args=['ref']),
+    },
+    'functions': [
+        _sl('SliceReader', ordinal=0, cname='SliceReader_ctor', ctor=True, init_as_call={'wrappedStream': 'Ws_copy(&self->wrappedStream, &($))'}),
+        _sl('SliceReader', ordinal=1, cname='SliceReader_copyctor', ctor=True, init_as_call={'wrappedStream': 'Ws_copy(&self->wrappedStream, &($))'}),
+        _sl('Initialize'),
+        _sl('ReadImplementation'),
+        _sl('ReadPartial', autos={'bytesLeft': 'uint64_t'}),
+        _sl('Length'), _sl('Position'),
+        _sl('SeekForward'), _sl('SeekBackward'), _sl('Seek'),
+        _sl('Slice', nparams=1, cname='SliceReader_Slice1', autos={'slice': 'SliceReader'}, ret_cxx='SliceReader'),
+        _sl('Slice', nparams=2, cname='SliceReader_Slice2', ret_cxx='SliceReader'),
+    ],
+})
+
+# --------------------------------------------------------------------------- U-BIDI  (helpers of the reader interfaces over any K_R reader)
+unit({
+    'name': 'bidi',
+    'includes': ['kr.h'],
+    'typemap': {},
+    'calls': {
+        'ReadImplementation': T('Rd_Read'), 'SeekBackward': T('Rd_SeekBackward'), 'Seek': T('Rd_Seek'),
+        'SeekForward': T('Rd_SeekForward'), 'Length': N('Rd_Length'), 'Position': N('Rd_Position'),
+    },
+    'functions': [
+        {'file': 'src/Stream/BidirectionalReader.h', 'qual': 'Peek', 'inclass': 'BidirectionalReader', 'ordinal': 0, 'cls': 'Rd', 'cname': 'BidirectionalReader_Peek', 'members': {}},
+        {'file': 'src/Stream/BidirectionalReader.h', 'qual': 'SeekBeginning', 'inclass': 'BidirectionalReader', 'cls': 'Rd', 'cname': 'BidirectionalReader_SeekBeginning', 'members': {}},
+        {'file': 'src/Stream/ForwardReader.h', 'qual': 'SeekEnd', 'inclass': 'ForwardReader', 'cls': 'Rd', 'cname': 'ForwardReader_SeekEnd', 'members': {}},
+        {'file': 'src/Stream/Reader.h', 'qual': 'Read', 'inclass': 'Reader', 'ordinal': 0, 'cls': 'Rd', 'cname': 'Reader_Read', 'members': {}},
     ],
 })
